@@ -192,6 +192,9 @@ package ast
 //@   loop[2] invariant forall k int :: {n.Exprs[k]} i < k && k < len(n.Exprs) ==> nodeN(n.Exprs[k])
 //@   loop[2] invariant forall p Pos :: {has(n.comp.lastPos, p)} has(n.comp.lastPos, p) == (exists k int :: i < k && k < len(n.Exprs) && (p in nodeL(n.Exprs[k])))
 //@   ensures n.comp != nil
+//@   ensures @own-nullable n.comp.nullable == n.gN
+//@   ensures @own-firstpos forall p Pos :: {has(n.comp.firstPos, p)} {p in n.gF} has(n.comp.firstPos, p) == (p in n.gF)
+//@   ensures @own-lastpos forall p Pos :: {has(n.comp.lastPos, p)} {p in n.gL} has(n.comp.lastPos, p) == (p in n.gL)
 //@   ensures @cache cacheOK(n.ht)
 //@   ensures @above aboveKept(n.ht)
 //@   ensures @memo-fresh compsNew()
@@ -338,6 +341,8 @@ package ast
 //@   opaque
 //@   modifies a.lastPos, all(Char.Pos), mapcontents
 
+// followpos: the recursion over the tree with its six loops is beyond what the prover discharges in useful time;
+// computeFollows stays opaque here and the n-ary rule is covered by the bounded route-agreement run of C10.
 //@ func (a *AST) computeFollows(n Node)
 //@   opaque
 //@   modifies mapcontents
